@@ -10,7 +10,11 @@ EXTENDS System
 \* q7  $..s                             a descendant segment whose first match lies below the root (find_one abandons
 \*                                      the traversal with siblings still pending)
 \* q8  $[?f(@.a) == 1]                  well-typed only where f returns a ValueType (the subclass's own f)
-MCQText == [q8 |-> <<36,91,63,102,40,64,46,97,41,32,61,61,32,49,93>>,
+\* q9  $.k3[1]   and  q10  $.k3['1']     an index and the member name spelled with the same digits: whatever the parser shares
+\*                                       between queries of one environment must not confuse the two kinds of selector
+MCQText == [q9 |-> <<36,46,107,51,91,49,93>>,
+            q10 |-> <<36,46,107,51,91,39,49,39,93>>,
+            q8 |-> <<36,91,63,102,40,64,46,97,41,32,61,61,32,49,93>>,
             q1 |-> <<36,91,63,64,46,97,32,61,61,32,36,46,120,93>>,
             q2 |-> <<36,91,63,102,40,64,46,97,41,93>>,
             q3 |-> <<36,46,46,91,63,64,91,63,64,32,61,61,32,36,46,120,93,93>>,
